@@ -131,8 +131,12 @@ def run_extra(case, real):
     if name == "ring":
         return a + b, a - b, a * b, -a, a ** 2, b * 3 - a
     if name == "derivative":
-        return (numpoly.derivative(a, case["kw"]["name"]), numpoly.gradient(a),
-                numpoly.hessian(a) if a.ndim < 2 else None)
+        first = case["kw"]["name"]
+        second = a.names[-1]
+        return (numpoly.derivative(a, first), numpoly.gradient(a),
+                numpoly.hessian(a) if a.ndim < 2 else None,
+                numpoly.derivative(a, first, second), numpoly.derivative(a, 0, 0),
+                numpoly.derivative(a, first, first, second))
     if name == "call":
         first = a.names[0]
         return (a(**{first: 2}), a(**{n: 1.5 for n in a.names}), a(**{first: b}),
